@@ -74,6 +74,13 @@ theorem predicates1_idx (d : Doc) (k : Nat) (l : List Nat) :
           match l, hl1 with
           | [x], _ => simp
 
+theorem num_keep (k i : Nat) : (!(i + 1 != k) && k != 0) = (k == i + 1) := by
+  by_cases h : k = i + 1
+  · subst h; simp
+  · have h1 : (k == i + 1) = false := beq_false_of_ne h
+    have h2 : (i + 1 != k) = true := by simp; omega
+    rw [h1, h2]; simp
+
 theorem predicates1_eq (d : Doc) (p : Pred) (l : List Nat) :
     predicates1 d p l = applyPred d p l := by
   cases p with
@@ -86,11 +93,7 @@ theorem predicates1_eq (d : Doc) (p : Pred) (l : List Nat) :
     · rw [if_neg hl]
       simp only [predTrue, predVal]
       try (congr 2; funext ⟨m, i⟩; simp)
-      try (by_cases h : l.length = i + 1
-           · rw [h]; simp
-           · have h1 : (l.length == i + 1) = false := beq_false_of_ne h
-             have h2 : (i + 1 != l.length) = true := by simp; omega
-             rw [h1, h2]; simp)
+      try (exact num_keep _ i)
 
 
 theorem predicates_eq (d : Doc) (ps : List Pred) (l : List Nat) :
